@@ -318,6 +318,7 @@ def prop_C13(repo, tier):
     add_findings(res, results, {'NO-SHARE', 'MSG-READONLY', 'NO-RO-CAPTURE'})
     from . import rules_shape
     rules_shape.fresh_read(res, program(repo))
+    rules_shape.no_shared_memo(res, program(repo))
     stale_cache(res, repo, merges=True, jobs=('msgaccessors',))
     res.floors = {'NO-SHARE': 14, 'MSG-READONLY': 20}
     res.explanation = (
@@ -499,7 +500,7 @@ def prop_C17(repo, tier):
             ok = has_item and has_text and has_empty and no_none
             res.add('BODY-MAP', 'Story.body', 'element kinds of the body listing', ok,
                     '' if ok else f'body elements are {elems}: expected Item objects, paragraph text and the empty string, never None')
-            kinds = lambda es: {('Item' if e.startswith('Item(') else 'text' if e.endswith('.text') else e) for e in es}   # noqa: E731
+            kinds = lambda es: {('Item' if e.startswith('Item(') else 'text' if e.endswith('.text') else 'stripped text' if e.endswith('.text.strip()') else e) for e in es}   # noqa: E731
             ro_body = acc['listings'].get('RunningOrder.body', {}).get('elements', [])
             res.add('BODY-MAP', 'RunningOrder.body', 'concatenation of the stories\' bodies', kinds(ro_body) == kinds(elems),
                     '' if kinds(ro_body) == kinds(elems) else f'running-order body elements {ro_body} differ from story body elements {elems}')
@@ -507,6 +508,21 @@ def prop_C17(repo, tier):
             st_script = acc['listings'].get('Story.script', {}).get('elements', [])
             res.add('BODY-MAP', 'RunningOrder.script', 'concatenation of the stories\' scripts', kinds(ro_script) == kinds(st_script),
                     '' if kinds(ro_script) == kinds(st_script) else f'{ro_script} vs {st_script}')
+        # SAME-STORIES: script/body of a running order (and of every subclass, which reads another base tag) run over the
+        # very story elements that .stories lists: the direct `story` children of the object's own base tag
+        res.rules['SAME-STORIES'] = ('RunningOrder.script/body (also as inherited by subclasses) are computed from the story children of the '
+                                     "object's own base tag, the same source as .stories")
+        for entry, info in sorted(acc['listings'].items()):
+            cls_, _, attr = entry.partition('.')
+            if attr not in ('script', 'body') or cls_ in ('Story', 'Item'):
+                continue
+            ref = acc['listings'].get(f'{cls_}.stories', {})
+            want = [e for e in ref.get('elements', []) if e.startswith('Story(')]
+            inner = want[0][len('Story('):-1] if want else ''
+            derived = [e for e in info['elements'] if e != "''"]
+            ok = bool(inner) and bool(derived) and all(inner in e for e in derived)
+            detail = '' if ok else f'{entry} elements {info["elements"]} are not (all) taken from {inner or "the stories"}, the elements .stories lists'
+            res.add('SAME-STORIES', entry, 'same story elements as .stories', ok, detail)
         for f in acc['findings']:
             if f['func'].split('.')[-1] in ('script', 'body', '_is_technical_note', '_get_tag_text') and f['rule'] != 'STALE-CACHE':
                 res.add(f['rule'], f['func'], f['construct'], False, f['detail'], f['file'], f['line'], f['witness'])
@@ -520,7 +536,7 @@ def prop_C17(repo, tier):
             res.add('NOTE-TABLE', 'Story.script', f'text={row["text"]!r}', ok,
                     '' if ok else f'script yields {got} for paragraph text {row["text"]!r}; the specification says {row["expected"]!r}')
     stale_cache(res, repo, jobs=('accessors',), funcs=lambda f: f.split('.')[-1] in ('script', 'body', 'stories', 'items', 'base_tag'))
-    res.floors = {'ORDER-PIPE': 4, 'BODY-MAP': 3, 'NOTE-TABLE': 20}
+    res.floors = {'ORDER-PIPE': 4, 'BODY-MAP': 3, 'NOTE-TABLE': 20, 'SAME-STORIES': 2}
     res.explanation = (
         'Static analysis: (1) ORDER-PIPE/BODY-MAP from the abstract evaluation of Story.body/script and RunningOrder.body/script; '
         '(2) NOTE-TABLE: the script filter together with _is_technical_note is evaluated by the abstract interpreter on one literal '
@@ -643,6 +659,7 @@ def prop_C08(repo, tier):
         res.add('NO-ELEM-BOOL', f['func'], f['construct'], False, f['detail'], f['file'], f['line'], f['witness'])
     res.add('NO-ELEM-BOOL', 'package', 'every condition evaluated on an Element value in the analysed slices', not elem_bool)
     rules_shape.tag_table(res, prog, sch)
+    rules_shape.no_shared_memo(res, prog)
     rules_shape.ea_table(res, prog, sch)
     rules_shape.ctor_siblings(res, prog)
     res.floors = {'CLASSIFY-TOTAL': 3, 'TAG-TABLE': 16, 'EA-TABLE': 10, 'CTOR-SIBLINGS': 2}
@@ -695,6 +712,7 @@ def prop_C07(repo, tier):
         bad = [x for x in r['reads'].get(entry, []) if x[2] != 'direct']
         res.add('DIRECT-CHILD', entry, 'child lookups made while classifying', not bad, '' if not bad else f'descendant / path searches: {bad}')
     rules_shape.no_bypass(res, prog)
+    rules_shape.no_shared_memo(res, prog)
     if marker:
         rules_shape.marker_writers(res, prog, marker)
     rules_shape.detect_completed(res, prog)
@@ -739,6 +757,7 @@ def prop_C14(repo, tier):
                  as_rule=lambda f: 'ROOT-WRITERS')
     add_findings(res, results, {'FRAME'}, want=lambda c, f: 'ro.xml)' in f['detail'] or "parent=ro.xml" in f['detail'], as_rule=lambda f: 'ENVELOPE-UNTOUCHED')
     rules_shape.serializer(res, prog)
+    rules_shape.no_shared_memo(res, prog)
     stale_cache(res, repo, merges=True, jobs=('accessors',), funcs=lambda f: f.split('.')[0] in ('MosFile', 'RunningOrder'))
     res.floors = {'ROOT-WRITERS': 20, 'SERIALIZER': 2}
     res.explanation = (
@@ -893,6 +912,7 @@ def prop_C18(repo, tier):
     prog = program(repo)
     rules_shape.ctor_siblings(res, prog)
     rules_shape.collection_ctor_siblings(res, prog)
+    rules_shape.no_shared_memo(res, prog)
     rules_shape.sorted_ctors(res, prog)
     rules_shape.restore_pair(res, prog)
     rules_shape.fresh_read(res, prog)
